@@ -145,7 +145,7 @@ func (o *c28Observer) ReplacePath(pfx *bnet.Prefix, old *route.Path, new *route.
 	o.AddPath(pfx, new)
 }
 func (o *c28Observer) RefreshRoute(*bnet.Prefix, []*route.Path) {}
-func (o *c28Observer) Dispose()                                  { o.disposed = true }
+func (o *c28Observer) Dispose()                                 { o.disposed = true }
 
 // ---------------------------------------------------------------------------
 // world: router under test + model
